@@ -130,6 +130,44 @@ def check(ctx):
                                                                                   ev.a["targets"][0].field),
                                 ev.node, ev.fn, "lambda / generator reaches bandit state [%s]" % c.name)
     ctx.floor("R19.1", "store events on traces", n_ev, 2000)
+    # R19.3 (randomness): an estimator that is fitted without a random_state draws from numpy's process-wide
+    # generator - state the bandit reads from outside its graph: a copy shares it with the original and a pickle
+    # loses it, so original and copy diverge (the same facts decide C04 R4.2 for reproducibility)
+    from .c04 import ESTIMATOR_CLS
+    n_est = 0
+    for c in F.configs():
+        w = F.world(c)
+        eng = w.eng
+        roots = [("__init__", F.init_trace(c))] + [(lab, F.trace(c, lab)) for lab in F.entry_labels(c)]
+        unseeded, fitted = {}, set()
+        for label, root in roots:
+            F.focus(c, root)
+            for ev, anc in walk(root):
+                if ev.kind == "store":
+                    if ev.a["skind"].startswith(("mutcall:fit", "mutcall:partial_fit")):
+                        fitted |= set(ev.a["base"].refs)
+                    if ev.a["value"] is not None and any(t.region == "bandit" for t in ev.a["targets"]):
+                        fitted |= set(ev.a["value"].refs)
+                elif ev.kind == "ext" and ev.a.get("result") is not None and \
+                        ev.a["spec"].get("cls") in ESTIMATOR_CLS:
+                    n_est += 1
+                    rs = ev.a["kwargs"].get("random_state")
+                    if rs is None:
+                        for sv in ev.a.get("starkw", []):
+                            for r in sv.refs:
+                                mk = eng.obj(r).mustkeys
+                                if "random_state" in mk:
+                                    rs = mk["random_state"]
+                    if rs is None or (rs.has_const and rs.const is None):
+                        for r in ev.a["result"].refs:
+                            unseeded[r] = (ev, label)
+        for r, (ev, label) in unseeded.items():
+            if r in fitted:
+                ctx.violate("R19.3", "%s is fitted without random_state" % ev.a["name"], ev.node, ev.fn,
+                            "its randomness comes from numpy's process-wide generator, which is neither copied nor "
+                            "pickled with the bandit: the original and its copies build different models [%s %s]" %
+                            (c.name, label.split("+")[0]))
+    ctx.floor("R19.3", "estimator constructions on traces", n_est, 20)
     # ---------------------------------------------------------------- R19.2
     n_cls = 0
     for cls in prog.classes.values():
